@@ -5,9 +5,12 @@ package main
 import (
 	"fmt"
 	"os"
+	"runtime/debug"
 )
 
 func main() {
+	// run-away recursion ends as a (reported) stack overflow within seconds instead of eating the machine
+	debug.SetMaxStack(48 << 20)
 	if len(os.Args) < 2 {
 		fmt.Fprintln(os.Stderr, "usage: worker <mode> ...")
 		os.Exit(2)
